@@ -5,8 +5,11 @@ import Y0.Model.Id
 import Mathlib.Data.List.Basic
 
 namespace Y0
+namespace IdAux
+end IdAux
+open IdAux
 
-theorem mapM_attach_except {α β ε : Type} (l : List α) (f : α → Except ε β) :
+theorem IdAux.mapM_attach_except {α β ε : Type} (l : List α) (f : α → Except ε β) :
     l.attach.mapM (fun x => f x.1) = l.mapM f := by
   simp
 
@@ -40,7 +43,7 @@ theorem idAlg_eq (topo : MG Name → Except Err (List Name)) (I : IdIn) :
 
 /-! ### `mapM` in `Except` -/
 
-theorem mapM_ok_iff {α β ε : Type} (f : α → Except ε β) (l : List α) (r : List β) :
+theorem IdAux.mapM_ok_iff {α β ε : Type} (f : α → Except ε β) (l : List α) (r : List β) :
     l.mapM f = .ok r ↔ List.Forall₂ (fun a b => f a = .ok b) l r := by
   induction l generalizing r with
   | nil =>
@@ -83,7 +86,7 @@ theorem mapM_ok_iff {α β ε : Type} (f : α → Except ε β) (l : List α) (r
             cases this
             rfl
 
-theorem mapM_error {α β ε : Type} (f : α → Except ε β) (l : List α) (e : ε) (h : l.mapM f = .error e) :
+theorem IdAux.mapM_error {α β ε : Type} (f : α → Except ε β) (l : List α) (e : ε) (h : l.mapM f = .error e) :
     ∃ a ∈ l, f a = .error e := by
   induction l with
   | nil => simp [pure, Except.pure] at h
